@@ -243,3 +243,18 @@ Lemma session_concrete :
   | _ => False
   end.
 Proof. vm_compute. repeat split; reflexivity. Qed.
+
+(* ---- the compression marker of the 'bin_compressed' form sits behind a 32 / 64 / 128-byte key only: a 32-byte secret (what the
+   BIP38 decryption of a compressed key hands to Key.__init__ in this form) keeps every byte, whatever its last byte is *)
+Lemma bin_compressed_32_keeps_every_byte : forall fold wc b compressed,
+  length b = 32%nat -> key_private_part fold wc (KBytes b) FBinCompressed compressed = Ok (b, true).
+Proof. intros fold wc b c H. unfold key_private_part. rewrite H. reflexivity. Qed.
+
+Lemma bin_compressed_marker_only_at_33_65_129 : forall fold wc b compressed,
+  length b <> 33%nat -> length b <> 65%nat -> length b <> 129%nat ->
+  key_private_part fold wc (KBytes b) FBinCompressed compressed = Ok (b, true).
+Proof.
+  intros fold wc b c H1 H2 H3. unfold key_private_part.
+  apply Nat.eqb_neq in H1. apply Nat.eqb_neq in H2. apply Nat.eqb_neq in H3.
+  rewrite H1, H2, H3. reflexivity.
+Qed.
